@@ -97,3 +97,70 @@ func VxC10LegacyProofCompleteness() {
 		}
 	}
 }
+
+// C10-H7 (legacy trie, proofs across updates of ONE trie object): "for every state and every key the proof
+// the node produces verifies against the root" - also when the same trie object has produced proofs before
+// and was updated since (whatever it memoises about proof nodes must follow the trie). Keys {4,5} form an
+// inner node below a long root edge; proofs are produced; a key is inserted that splits the edge ABOVE that
+// node (16, or a key diverging at the top bit) or the third key is deleted again so the node is re-linked
+// to a new parent; the trie is re-hashed; proofs for present and absent keys must verify against the new
+// root and yield the stored values.
+func VxC10LegacyProofsFollowTheTrieThroughUpdates() {
+	vx.Bound("legacy trie, height 251; keys 4,5 (+ 16 or 2^250 inserted or deleted afterwards); symbolic non-zero values; Prove for 4, 5 and the absent 6 before and after the update; VerifyProof against Trie.Hash each time")
+	k := func(v uint64) felt.Felt { return felt.FromUint64[felt.Felt](v) }
+	k4, k5, k6 := k(4), k(5), k(6)
+	other := k(16)
+	if vx.Choice("other-key-diverges-at-the-top-bit", 2) == 1 {
+		other = vxKeyWithBit(250)
+	}
+	v4, v5, vo := vxArbFelt("v4"), vxArbFelt("v5"), vxArbFelt("vo")
+	vx.Assume(!v4.IsZero() && !v5.IsZero() && !vo.IsZero())
+	txn := memory.New().NewIndexedBatch()
+	t, err := NewTriePedersen(txn, []byte{0x11}, 251)
+	vx.Assert(err == nil, "trie-opens")
+	put := func(key *felt.Felt, v *felt.Felt) {
+		_, e := t.Put(key, v)
+		vx.Assert(e == nil, "put-ok")
+	}
+	vx.CollisionFree()
+	vx.NodeHashesSeparated()
+	proveAll := func(stage string, withOther bool) {
+		root, herr := t.Hash()
+		vx.Assert(herr == nil, "hash-ok")
+		check := func(key *felt.Felt, want *felt.Felt) {
+			proof := NewProofNodeSet()
+			vx.Assert(t.Prove(key, proof) == nil, "prove-ok")
+			got, verr := VerifyProof(&root, key, proof, crypto.Pedersen)
+			vx.Assert(verr == nil, "proof-verifies-against-the-current-root-"+stage)
+			if verr == nil {
+				if want == nil {
+					vx.Assert(got.IsZero(), "absent-key-yields-non-membership-"+stage)
+				} else {
+					vx.Assert(got.Equal(want), "present-key-yields-its-value-"+stage)
+				}
+			}
+		}
+		check(&k4, v4)
+		check(&k5, v5)
+		check(&k6, nil)
+		if withOther {
+			check(&other, vo)
+		}
+	}
+	put(&k4, v4)
+	put(&k5, v5)
+	startsWithThree := vx.Choice("history", 2) == 1
+	if startsWithThree {
+		put(&other, vo)
+	}
+	proveAll("before-the-update", startsWithThree)
+	if startsWithThree {
+		put(&other, new(felt.Felt)) // delete: the inner node over {4,5} is re-linked to the root
+		vx.Cover("key-deleted-after-proofs-were-produced")
+		proveAll("after-the-update", false)
+	} else {
+		put(&other, vo) // splits the root edge above the inner node over {4,5}
+		vx.Cover("edge-above-a-proven-node-split-after-proofs-were-produced")
+		proveAll("after-the-update", true)
+	}
+}
